@@ -42,5 +42,13 @@ impl<'a> DataRowIteratorTestData<'a> {
 //@fn TestData.extract_output_values
 }
 
+impl<'a, 'b, T: TestDriver> DataRowIterator<'a, 'b, T> {
+//@fn DataRowIterator.try_new
+//@fn DataRowIterator.handle_io
+//@fn DataRowIterator.vars
+// N2: `impl Iterator for DataRowIterator { type Item = ..; fn next }` is emitted as an inherent method (Item spelled out)
+//@fn DataRowIterator.next
+}
+
 } // verus!
 fn main() {}
